@@ -112,84 +112,97 @@ func runOctree(enc *json.Encoder, c Case) error {
 
 	// closest element / closest point
 	if len(c.QPts) > 0 {
+		line := batchLine{K: "closest", Case: c.Id, Fail: []int{}, Nan: []int{}}
 		batch := make([]closestEntry, 0, len(c.QPts))
-		for _, q := range c.QPts {
+		for qi, q := range c.QPts {
 			qv := v3(q)
-			e := closestEntry{Q: q, D2: make([]int, n), Cp: make([][]int, n), Rp: []int{0, 0, 0}}
+			bad := false
+			e := closestEntry{D2: make([]int, n), Cp: make([][]int, n), Rp: []int{0, 0, 0}}
 			for i, el := range b.elems {
 				p := el.ClosestPoint(qv)
-				e.D2[i] = fx(p.DistanceSquared(qv), &e.Nan)
-				e.Cp[i] = []int{fx(p.X(), &e.Nan), fx(p.Y(), &e.Nan), fx(p.Z(), &e.Nan)}
+				e.D2[i] = fx(p.DistanceSquared(qv), &bad)
+				e.Cp[i] = []int{fx(p.X(), &bad), fx(p.Y(), &bad), fx(p.Z(), &bad)}
 			}
-			e.St = guard(func() {
+			st := guard(func() {
 				ri, rp := b.tree.ClosestPoint(qv)
 				e.Ri = ri + 1
-				e.Rp = []int{fx(rp.X(), &e.Nan), fx(rp.Y(), &e.Nan), fx(rp.Z(), &e.Nan)}
+				e.Rp = []int{fx(rp.X(), &bad), fx(rp.Y(), &bad), fx(rp.Z(), &bad)}
 			})
+			line.note(qi, st, bad)
 			batch = append(batch, e)
 		}
-		if err := enc.Encode(batchLine{K: "closest", Case: c.Id, B: batch}); err != nil {
+		line.B = batch
+		if err := enc.Encode(line); err != nil {
 			return err
 		}
 		// elements whose bounds contain the point
+		line = batchLine{K: "contain", Case: c.Id, Fail: []int{}, Nan: []int{}}
 		cb := make([]setEntry, 0, len(c.QPts))
-		for _, q := range c.QPts {
+		for qi, q := range c.QPts {
 			qv := v3(q)
-			e := setEntry{Q: q, Hit: []int{}, Res: []int{}, Trav: []int{}}
+			e := setEntry{Hit: []int{}, Res: []int{}}
 			for i := range b.elems {
 				if bounds[i].Contains(qv) {
 					e.Hit = append(e.Hit, i+1)
 				}
 			}
-			e.St = guard(func() { e.Res = ids1(b.tree.ElementsContainingPoint(qv)) })
+			st := guard(func() { e.Res = ids1(b.tree.ElementsContainingPoint(qv)) })
+			line.note(qi, st, false)
 			cb = append(cb, e)
 		}
-		if err := enc.Encode(batchLine{K: "contain", Case: c.Id, B: cb}); err != nil {
+		line.B = cb
+		if err := enc.Encode(line); err != nil {
 			return err
 		}
 	}
 
 	// elements whose bounds are within a radius
 	if len(c.Ranges) > 0 {
+		line := batchLine{K: "range", Case: c.Id, Fail: []int{}, Nan: []int{}}
 		rb := make([]setEntry, 0, len(c.Ranges))
-		for _, q := range c.Ranges {
+		for qi, q := range c.Ranges {
 			qv := v3(q[0:3])
 			r := float64(q[3]) / float64(q[4])
-			e := setEntry{Q: q, Hit: []int{}, Res: []int{}, Trav: []int{}}
+			e := setEntry{Hit: []int{}, Res: []int{}}
 			for i := range b.elems {
 				if bounds[i].ClosestPoint(qv).Distance(qv) <= r {
 					e.Hit = append(e.Hit, i+1)
 				}
 			}
-			e.St = guard(func() { e.Res = ids1(b.tree.ElementsWithinRange(qv, r)) })
+			st := guard(func() { e.Res = ids1(b.tree.ElementsWithinRange(qv, r)) })
+			line.note(qi, st, false)
 			rb = append(rb, e)
 		}
-		if err := enc.Encode(batchLine{K: "range", Case: c.Id, B: rb}); err != nil {
+		line.B = rb
+		if err := enc.Encode(line); err != nil {
 			return err
 		}
 	}
 
 	// elements whose bounds a ray crosses: list query and passive traversal
 	if len(c.Rays) > 0 {
-		yb := make([]setEntry, 0, len(c.Rays))
-		for _, q := range c.Rays {
+		line := batchLine{K: "ray", Case: c.Id, Fail: []int{}, Nan: []int{}}
+		yb := make([]rayEntry, 0, len(c.Rays))
+		for qi, q := range c.Rays {
 			ray, t0, t1 := rayOf(q)
-			e := setEntry{Q: q, Hit: []int{}, Res: []int{}, Trav: []int{}}
+			e := rayEntry{Hit: []int{}, Res: []int{}, Trav: []int{}}
 			for i := range b.elems {
 				if bounds[i].IntersectsRayInRange(ray, t0, t1) {
 					e.Hit = append(e.Hit, i+1)
 				}
 			}
-			e.St = guard(func() {
+			st := guard(func() {
 				// the returned slice is the tree's scratch buffer: copy at once
 				e.Res = ids1(b.tree.ElementsIntersectingRay(ray, t0, t1))
 				b.tree.TraverseIntersectingRay(ray, t0, t1, func(i int, min, max *float64) {
 					e.Trav = append(e.Trav, i+1)
 				})
 			})
+			line.note(qi, st, false)
 			yb = append(yb, e)
 		}
-		if err := enc.Encode(batchLine{K: "ray", Case: c.Id, B: yb}); err != nil {
+		line.B = yb
+		if err := enc.Encode(line); err != nil {
 			return err
 		}
 	}
@@ -198,8 +211,9 @@ func runOctree(enc *json.Encoder, c Case) error {
 	// is caller code, as in rendering.Mesh.Hit; the element-level primitive is
 	// modeling.Tri.RayIntersects restricted to [min,max].
 	if len(c.Rays) > 0 && c.Kind == "tri" {
+		line := batchLine{K: "near", Case: c.Id, Fail: []int{}, Nan: []int{}}
 		nb := make([]nearEntry, 0, len(c.Rays))
-		for _, q := range c.Rays {
+		for qi, q := range c.Rays {
 			ray, t0, t1 := rayOf(q)
 			elemHit := func(i int, min, max float64) (float64, bool) {
 				p, ok := b.tris[i].RayIntersects(ray)
@@ -212,17 +226,18 @@ func runOctree(enc *json.Encoder, c Case) error {
 				}
 				return t, true
 			}
-			e := nearEntry{Q: q, Te: make([]int, n), Hitb: []int{}, Vis: []int{}}
+			bad := false
+			e := nearEntry{Te: make([]int, n), Hitb: []int{}, Vis: []int{}}
 			for i := range b.elems {
 				e.Te[i] = None
 				if t, ok := elemHit(i, t0, t1); ok {
-					e.Te[i] = fx(t, &e.Nan)
+					e.Te[i] = fx(t, &bad)
 				}
 				if bounds[i].IntersectsRayInRange(ray, t0, t1) {
 					e.Hitb = append(e.Hitb, i+1)
 				}
 			}
-			e.St = guard(func() {
+			st := guard(func() {
 				// the caller keeps its own nearest-so-far (as rendering.Mesh.Hit
 				// does): the tree's min/max are per cell, narrowing them only
 				// prunes the rest of the current cell and its children
@@ -240,14 +255,25 @@ func runOctree(enc *json.Encoder, c Case) error {
 				})
 				e.Ri = best + 1
 				if best >= 0 {
-					e.Rt = fx(bestT, &e.Nan)
+					e.Rt = fx(bestT, &bad)
 				}
 			})
+			line.note(qi, st, bad)
 			nb = append(nb, e)
 		}
-		if err := enc.Encode(batchLine{K: "near", Case: c.Id, B: nb}); err != nil {
+		line.B = nb
+		if err := enc.Encode(line); err != nil {
 			return err
 		}
 	}
 	return nil
+}
+
+func (l *batchLine) note(qi int, st string, bad bool) {
+	if st != "OK" {
+		l.Fail = append(l.Fail, qi+1)
+	}
+	if bad {
+		l.Nan = append(l.Nan, qi+1)
+	}
 }
